@@ -96,8 +96,14 @@ def cases(draw, tier="quick"):
         cands = ["x", "y", "w"]
         deg = 3
     # initial values: numeric or left uninitialised (symbolic x0)
-    for v in cands:
-        if draw(st.integers(0, 2)) > 0:
+    for vi, v in enumerate(cands):
+        r = draw(st.integers(0, 5))
+        if r == 5:
+            # random initial value (choice), so that E(x0**2) != E(x0)**2
+            init.append(["assign", v, ["choice", [L.num(draw(st.sampled_from(["1", "2", "0"]))), L.num(draw(st.sampled_from(["3", "-1", "4"])))], [L.num("1/2")]]])
+        elif r == 4 and vi > 0 and any(s_[1] == cands[vi - 1] for s_ in init):
+            init.append(["assign", v, ["expr", ["add", L.var(cands[vi - 1]), L.num(1)]]])
+        elif r >= 2:
             init.append(["assign", v, ["expr", L.num(draw(st.sampled_from(["1", "2", "-1", "1/2", "0", "3"])))]])
     prog = {"types": {}, "init": nz_init + init, "guard": ["true"], "body": body}
     if draw(st.integers(0, 4)) == 0 and len(cands) > 1 and fam != "fibtrace":
@@ -138,6 +144,10 @@ def run_case(case, tier="quick"):
             pd.set_settings()
             program = pd.normalize(pd.parse(text))
             cands = [se(v) for v in case["candidates"]]
+            # input domain: candidate variables are defective variables of the loop (as the CLI chooses them); with particular
+            # initial values a family instance can degenerate into a solvable loop (y in {0,1} makes y**2 = y)
+            if not {str(v) for v in cands} <= {str(v) for v in program.defective_variables}:
+                return dict(base, status="gave_up", bucket="candidates_not_defective")
             if case["loop"]:
                 sols, programs = SolvLoopSynthesizer.synth_loop(cands, case["deg"], program)
             else:
